@@ -171,7 +171,7 @@ class TermGen:
             if op == "pow":
                 b = ["lit", enc(r.choice([2, 3, 0.5, -1, 0, 1.5]))]
                 if r.random() < 0.15:
-                    a, b = ["lit", enc(r.choice([2, -3, 0.5, -2.5]))], a
+                    a, b = ["lit", enc(r.choice([2, -3, 0.5, -2.5, -0.0, -1]))], a
             else:
                 b = self.term(readable, depth - 1)
             return ["bin", op, a, b]
